@@ -1,6 +1,7 @@
 package sim
 
 import (
+	"encoding/hex"
 	"regexp"
 	"strings"
 	"time"
@@ -14,6 +15,26 @@ import (
 type Line struct {
 	Raw   string `json:"raw"`
 	Clean string `json:"clean"`
+	// Bin (hex): bytes that are neither text nor part of an escape sequence (invalid UTF-8, C0
+	// controls other than CR LF TAB ESC), emitted inside the line between an "a" and a "z" — part
+	// of the output like any other byte (hex because JSON cannot hold them)
+	Bin string `json:"bin,omitempty"`
+}
+
+// BinTokens is the pool Line.Bin is drawn from.
+var BinTokens = []string{"636166e9", "00", "07", "0878", "0c", "7f", "fffe", "c3", "e282", "c0af", "1f", "0007"}
+
+func (l Line) bin() string {
+	if l.Bin == "" {
+		return ""
+	}
+
+	b, err := hex.DecodeString(l.Bin)
+	if err != nil {
+		panic(err)
+	}
+
+	return "a" + string(b) + "z"
 }
 
 // Marker bytes occur in every generated command and nowhere in host names, banners or prompts,
@@ -328,7 +349,7 @@ func NormOutput(lines []string) string {
 func Cleans(ls []Line) []string {
 	out := make([]string, len(ls))
 	for i, l := range ls {
-		out[i] = l.Clean
+		out[i] = l.Clean + l.bin()
 	}
 
 	return out
@@ -338,7 +359,7 @@ func Cleans(ls []Line) []string {
 func Raws(ls []Line) []string {
 	out := make([]string, len(ls))
 	for i, l := range ls {
-		out[i] = l.Raw
+		out[i] = l.Raw + l.bin()
 	}
 
 	return out
